@@ -13,6 +13,13 @@ use std::time::Instant;
 
 pub const VERIF_ROOT: &str = "/verif";
 
+/// Where evidence and replay files go: /verif, or $VH_OUT when a check is run against a
+/// scratch copy of the repository (seeded-change validation), so that the registered evidence
+/// is never overwritten by such a run.
+pub fn out_root() -> String {
+    std::env::var("VH_OUT").unwrap_or_else(|_| VERIF_ROOT.to_string())
+}
+
 #[derive(Clone, Debug)]
 pub struct Finding {
     pub id: String,
@@ -241,7 +248,7 @@ impl Report {
         // violations -> replay files
         let mut vio_lines = Vec::new();
         if !self.violations.is_empty() {
-            let dir = PathBuf::from(format!("{VERIF_ROOT}/replays/{}", self.prop));
+            let dir = PathBuf::from(format!("{}/replays/{}", out_root(), self.prop));
             let _ = std::fs::create_dir_all(&dir);
             for (sig, (n, detail)) in &self.violations {
                 let h = crate::rng::hash_str(sig);
@@ -264,7 +271,7 @@ impl Report {
             "wall_s": wall,
             "violations": self.violations.len(),
         });
-        let evdir = format!("{VERIF_ROOT}/evidence");
+        let evdir = format!("{}/evidence", out_root());
         let _ = std::fs::create_dir_all(&evdir);
         let evpath = format!("{evdir}/{}.json", self.prop);
         std::fs::write(&evpath, serde_json::to_string_pretty(&ev).unwrap()).expect("write evidence");
